@@ -155,6 +155,22 @@ def run(eng, ctx):
     # the loop can only be left by break (while True) - a conditional loop test would be another exit
     ctx.check(info.get("test") == ("const", True) or (is_const(info.get("test", ("?",))) and info["test"][1]), "C12.D2", dq, "loop test", expected="while True (exits are the classified breaks)", found=show(info.get("test", ("?",))), **eng.loc(f, info["node"]))
 
+    # ---------------- D3 chunk body
+    ctx.rule("C12.D3", "chunk body: `read(n)` with n the parsed size is issued for every non-zero size (guarded by n != 0 or unguarded), never under n == 0; "
+                       "the zero size is what ends the stream")
+    sizes = [e.term for e in se.effects if e.kind == "call" and e.term[2] == ("builtin", "int") and e.loops]
+    breads = [e for e in consumes if e.term[2][2] == "read"]
+    ctx.instance("chunk body reads", len(breads), 1)
+    for e in breads:
+        arg = e.term[3][0] if e.term[3] else None
+        ctx.check(arg in sizes, "C12.D3", dq, norm(e.node)[:60], expected="read(<parsed chunk size>)", found=show(arg)[:60] if arg else "-", **eng.loc(f, e.node))
+        from .util import atomize
+
+        for conj in e.dnf:
+            vals = [atomize((c, pol)) for c, pol in conj if c[0] == "cmp" and c[2] in sizes and c[3] == ("const", 0)]
+            wrong = [a for a, v in vals if (a[1] == "==" and v) or (a[1] in ("<",) and v)]
+            ctx.check(not wrong, "C12.D3", dq, f"{norm(e.node)[:40]} guard", expected="issued for non-zero sizes", found=guard_text(conj)[:100], **eng.loc(f, e.node))
+
     # ---------------- D4 carry-in
     ctx.rule("C12.D4", "receiver: dechunk(partial ‖ data) in that order; both results stored from one call; decoded part appended to the buffer")
     sv = eng.symeval(rv.qualname)
